@@ -5,6 +5,7 @@ use rooc::{Linearizer, RoocParser};
 pub fn explore(src: &str) {
     let p = RoocParser::new(src.to_string());
     match p.format() { Ok(f) => println!("--- format\n{}", f), Err(e) => println!("--- format error: {:?}", e) }
+    match p.type_check(&vec![], &IndexMap::new()) { Ok(()) => println!("--- type_check ok"), Err(e) => println!("--- type_check error: {}", e) }
     let model = match p.parse_and_transform(vec![], &IndexMap::new()) {
         Ok(m) => m,
         Err(e) => { println!("--- transform error: {}", e); return; }
